@@ -336,4 +336,102 @@ C11(pre, step, post, out, eng) ==
                 /\ \E y \in 1..Len(D.trans) : D.trans[y].name = out[x].b /\ D.trans[y].tgt \in D.states
                                                   /\ Kind(D.trans[y].tgt) = "history"}}
 
+--------------------------------------------------------------------------
+(* C20 -- event descriptors, written independently of SCCore!MatchingKeys    *)
+
+\* specificity of key k for event type t: 0 exact, 1..99 partial (longer prefix = smaller),
+\* 1000 wildcard, 9999 no match.  Synthetic (done./error./after./xstate.) types match exactly only.
+Specificity(k, t) ==
+  LET ks == Segs(k)
+      ts == Segs(t)
+      synthetic == Len(ts) >= 2 /\ ts[1] \in {"done", "error", "after", "xstate"}
+  IN IF k = t THEN 0
+     ELSE IF synthetic THEN 9999
+     ELSE IF k = "*" THEN 1000
+     ELSE IF Len(ks) >= 2 /\ ks[Len(ks)] = "*" /\ Len(ks) - 1 <= Len(ts)
+             /\ \A i \in 1..(Len(ks) - 1) : ks[i] = ts[i]
+          THEN 100 - (Len(ks) - 1)
+     ELSE 9999
+
+C20Keys(s, t) ==
+  LET onl == D.tix[s].on
+      m == {i \in 1..Len(onl) : Specificity(onl[i].key, t) < 9999}
+  IN IF t = "" THEN <<>> ELSE SortBy(m, [i \in m |-> Specificity(onl[i].key, t) * 1000 + i])
+
+RECURSIVE OnKeyCands20(_, _, _, _)
+OnKeyCands20(s, keyIdx, i, acc) ==
+  IF i > Len(keyIdx) THEN [c |-> acc, bar |-> FALSE]
+  ELSE LET r == OnCands(D.tix[s].on[keyIdx[i]].tids, 1, acc)
+       IN IF r.bar THEN r ELSE OnKeyCands20(s, keyIdx, i + 1, r.c)
+
+Cands20(s, ev) ==
+  LET onr == IF ev.type = "" THEN [c |-> <<>>, bar |-> FALSE]
+             ELSE OnKeyCands20(s, C20Keys(s, ev.type), 1, <<>>)
+      rest == (IF IsTransientCheck(ev.type) THEN D.tix[s].always ELSE <<>>)
+              \o SelectSeq(D.tix[s].onDone, LAMBDA t : D.trans[t].key = ev.type)
+  IN IF onr.bar THEN onr ELSE [c |-> onr.c \o rest, bar |-> FALSE]
+
+RECURSIVE Nominee20(_, _, _, _)
+Nominee20(s, ev, C, gv) ==
+  LET r == Cands20(s, ev)
+      en == SelectSeq(r.c, LAMBDA t : GTrue(D.trans[t].guard, C, gv))
+  IN IF en # <<>> THEN en[1]
+     ELSE IF r.bar \/ s = D.root THEN 0          \* a null transition consumes the event here
+     ELSE Nominee20(Parent(s), ev, C, gv)
+
+C20(pre, step, post, out) ==
+  UNION { LET e == out[i]
+              C == e.d
+              leaves0 == {s \in C : IsLeaf(s)}
+              leaves == IF leaves0 = {} THEN C ELSE leaves0
+              nom == {Nominee20(l, EvOfSelect(e), C, step.gv) : l \in leaves} \ {0}
+          IN Tag(e.c = {TName(t) : t \in nom}, "descriptor_order")
+        : i \in {x \in 1..Len(out) : out[x].k = "select" /\ out[x].b \in {"process", "can"}
+                                      /\ EvOfSelect(out[x]).kind = "ev"} }
+
+--------------------------------------------------------------------------
+(* C06 -- guards gate transitions exactly                                    *)
+
+RECURSIVE MissingAtoms(_)
+MissingAtoms(g) ==
+  CASE g.op \in {"and", "or", "not"} -> UNION {MissingAtoms(g.kids[i]) : i \in 1..Len(g.kids)}
+    [] g.op = "atom" -> IF g.name \in D.guardImpl THEN {} ELSE {g.name}
+    [] OTHER -> {}
+
+\* the first candidate of the deepest level that has candidates, for the chain starting at s
+RECURSIVE FirstCand(_, _)
+FirstCand(s, ev) ==
+  LET r == Cands(s, ev)
+  IN IF r.c # <<>> THEN r.c[1]
+     ELSE IF r.bar \/ s = D.root THEN 0 ELSE FirstCand(Parent(s), ev)
+
+MustReportMissing(C, ev) ==
+  \E l \in {s \in C : IsLeaf(s)} :
+     LET t == FirstCand(l, ev)
+     IN t # 0 /\ D.trans[t].guard.op = "atom" /\ D.trans[t].guard.name \notin D.guardImpl
+
+ReportedMissing(post, out) ==
+  \/ (post.err # NoErr /\ post.err[1] = "ImplementationMissingError")
+  \/ \E i \in 1..Len(out) : out[i].k = "loop_error" /\ out[i].a = "ImplementationMissingError"
+
+C06(pre, step, post, out) ==
+  LET sels == {i \in 1..Len(out) : out[i].k = "select"}
+      gv == step.gv
+  IN \* taken only if true when selected (boolean meaning, raise = false), first true candidate wins
+     UNION {Tag(out[i].c = {TName(t) : t \in Nominees(out[i].d, EvOfSelect(out[i]), gv)}, "guard_decides") : i \in sels}
+     \* the guard the library attached to every transition is the one its config denotes
+     \* (guard or cond key, every operand spelling): a guarded transition is never silently unguarded
+     \cup Tag(\A t \in 1..Len(D.trans) : D.trans[t].guard = D.trans[t].wantGuard, "guard_as_declared")
+     \* a raising guard disturbs nothing: the step completes without an error
+     \cup Tag((\A g \in DOMAIN gv : gv[g] # "R") \/ post.err = NoErr
+              \/ post.err[1] = "ImplementationMissingError", "raise_is_false")
+     \* a named but unimplemented guard is reported, never decided
+     \cup Tag((step.op = "send" /\ pre.status = "running" /\ MustReportMissing(pre.config, PlainEv(step.ev)))
+               => ReportedMissing(post, out), "missing_reported")
+     \cup Tag(ReportedMissing(post, out) /\ step.op = "send" =>
+               (post.config = pre.config \/ \E i \in 1..Len(out) : out[i].k = "on_transition"), "missing_leaves_state")
+     \* the result logged for an evaluated guard is its valuation (hook sees true only for "T")
+     \cup Tag(\A i \in 1..Len(out) : out[i].k = "guard" =>
+                 \E g \in DOMAIN gv : (out[i].b = "T") = (gv[g] = "T") , "hook_result")
+
 =============================================================================
